@@ -45,6 +45,12 @@ Theorem C11_alone_vs_inside : forall hs b ps q, In q ps ->
   exists pre post, fmt (PMulti hs b ps) = pre ++ dash b ++ CRLF ++ fmt q ++ post.
 Proof. exact child_inside. Qed.
 
+(* a Message with a MIME body is formatted as its own header fields followed by the formatted part: octet for
+   octet the part with the message's fields put in front of its own - so the theorems above apply to whole
+   messages (with `wf` asked of the combined header list) *)
+Theorem C11_message_level : forall mh p, render mh ++ fmt p = fmt (with_fields mh p).
+Proof. exact message_is_part. Qed.
+
 (* what `wf` asks, spelled out (so that the hypothesis can be read here) *)
 Theorem C11_wf_multi : forall hs b ps, wf (PMulti hs b ps) <->
   Forall field_ok hs /\ boundary_of (fields_of hs) = Some b /\ no_cr b = true /\
@@ -67,4 +73,5 @@ Print Assumptions C11_formatted_single.
 Print Assumptions C11_delimiters.
 Print Assumptions C11_announced.
 Print Assumptions C11_alone_vs_inside.
+Print Assumptions C11_message_level.
 Print Assumptions C11_wf_multi.
